@@ -407,6 +407,7 @@ func TestC18(t *testing.T) {
 	r.Set("blob_loop_wall_s", time.Since(t0).Seconds())
 	pprof.StopCPUProfile()
 
+	r.Set("exhaustive_subspace", "all sequences up to blob_*_max_exhaustive_length over blob_alphabet (bucket and single-blob endpoint); longer sequences and the loop mode are seeded samples")
 	r.Require("blob_sequences", r.Counter("blob_direct_sequences"), 1500)
 	r.Require("blob_calls_created", r.Counter("calls_C"), 500)
 	r.Require("blob_calls_updated", r.Counter("calls_U"), 100)
